@@ -20,12 +20,16 @@ RULE = (
     'with a "tie" mode that builds successive slopes exactly equal to the tolerance and its floating-point '
     'neighbours, and an "exact-tie" stream of dyadic series (float / int / datetime coordinates) whose slopes are '
     'exactly +-atol, 0, atol/2 or 2..3 atol with no rounding anywhere (the oracle decides exact ties: not a split); '
-    'min_n_points 1..n (+ n+1), int or Variable; a malformed stream of unsorted coordinates. In-phase: '
+    'about half of the series carry 0-3 further per-point coordinates (float / int / datetime / string), 0-2 masks, '
+    'variances on the data and an unrelated 0-d coordinate, and every bin is compared in full (value, variance, every '
+    'coordinate, every mask) with the input slice; min_n_points 1..n (+ n+1), int or Variable; a malformed stream of unsorted coordinates. In-phase: '
     'frequencies of either sign, 0, multiples / divisors n and n*(1 +- rtol) with exact ties, reference of either sign and 0. '
     'A case is distinct by its full input bit pattern; it is non-trivial when the slope list contains both a slope within '
     'and a slope above the tolerance (plateaus) or both a kept and a dropped element (in-phase).'
 )
 ASSUMPTIONS = [
+    'scipp: bins.mean skips points masked by any mask; value = seq-sum * (1/k), variance = seq-sum(var) * (1/k) * (1/k) over the k '
+    'unmasked points (NaN for k = 0); coordinate min/max of a bin ignore masks — mirrored and compared bit for bit',
     'scipp: sc.mean / bins.mean is the left-to-right sum from 0 times 1/n; group() on a non-decreasing int64 label '
     'makes one bin per run of equal labels in label order; issorted(ascending) is non-strict; sc.round is '
     'round-half-even — mirrored in the model and compared bit for bit on every run',
@@ -236,6 +240,97 @@ def gen_exact_tie(rng):
                 ydtype='float64')
 
 
+EXTRA_NAMES = ['phase', 'pulse', 'label', 'stamp', 'temperature']
+
+
+def decorate(rng, c):
+    """Give the series what real chopper logs carry besides the dimension coordinate: 0-3 further per-point
+    coordinates (float / int / datetime / string), 0-2 masks, variances on the data, an unrelated 0-d coordinate.
+    JSON-able: floats as bit patterns."""
+    n = len(c['y'])
+    extras = []
+    for name in rng.sample(EXTRA_NAMES, rng.randint(0, 3)):
+        kind = rng.choice(['float', 'int', 'datetime', 'string'])
+        if kind == 'float':
+            vals = [bits(rng.choice([0.0, -0.0, 1.5, rng.uniform(-180, 180)])) for _ in range(n)]
+        elif kind == 'int':
+            vals = [rng.randint(-3, 1000) for _ in range(n)]
+        elif kind == 'datetime':
+            vals = [rng.randint(0, 10**9) for _ in range(n)]
+        else:
+            vals = [rng.choice(['', 'a', 'open', 'closed', 'x y', 'é']) for _ in range(n)]
+        extras.append({'name': name, 'kind': kind, 'values': vals})
+    masks = []
+    for name in rng.sample(['bad', 'm2'], rng.randint(0, 2)):
+        pm = rng.choice([0.0, 0.2, 0.5, 1.0])
+        masks.append({'name': name, 'values': [1 if rng.random() < pm else 0 for _ in range(n)]})
+    variances = None
+    if c.get('ydtype', 'float64') == 'float64' and rng.random() < 0.5:
+        variances = [bits(rng.choice([0.0, 1.0, 0.25, rng.uniform(0, 4)])) for _ in range(n)]
+    scalar = {'name': 'run', 'value': rng.randint(0, 99999)} if rng.random() < 0.5 else None
+    c['deco'] = {'extras': extras, 'masks': masks, 'variances': variances, 'scalar': scalar}
+    return c
+
+
+def _tok(parts):
+    import hashlib
+
+    return hashlib.blake2b('|'.join(parts).encode(), digest_size=8).hexdigest()
+
+
+def _canon_values(var):
+    """canonical per-element strings of a 1-d scipp variable, tagged with its dtype"""
+    import scipp as sc
+
+    dt = str(var.dtype)
+    if dt == 'float64':
+        return ['f:' + bits(v) for v in var.values]
+    if dt == 'float32':
+        return ['f32:' + repr(float(v)) for v in var.values]
+    if dt in ('int64', 'int32'):
+        return ['i:' + str(int(v)) for v in var.values]
+    if dt == 'datetime64':
+        return ['d:' + str(int(v)) for v in var.values.astype('int64')]
+    if dt == 'string':
+        return ['s:' + str(v).encode().hex() for v in var.values]
+    if dt == 'bool':
+        return ['b:' + str(int(bool(v))) for v in var.values]
+    return [dt + ':' + repr(v) for v in var.values]
+
+
+def _record_tokens(da):
+    """one token per point of a 1-d data array: value, variance, every coordinate, every mask (names sorted).
+    Also the signature (which coordinates / masks / variances exist)."""
+    n = da.sizes[da.dim]
+    cols = [['y=' + v for v in _canon_values(da.data)]]
+    if da.variances is not None:
+        cols.append(['v=' + bits(v) for v in da.variances])
+    else:
+        cols.append(['v=-'] * n)
+    cnames = sorted(k for k in da.coords if da.coords[k].ndim == 1)
+    for k in cnames:
+        cols.append([f'c.{k}=' + v for v in _canon_values(da.coords[k])])
+    mnames = sorted(da.masks)
+    for k in mnames:
+        cols.append([f'm.{k}=' + v for v in _canon_values(da.masks[k])])
+    toks = [_tok([col[i] for col in cols]) for i in range(n)]
+    sig = {'coords': cnames, 'masks': mnames, 'variances': da.variances is not None}
+    return toks, sig
+
+
+def _scalar_coords(da):
+    return sorted((k, _canon_values(da.coords[k].flatten(to='_'))[0] if da.coords[k].ndim == 0 else '?')
+                  for k in da.coords if da.coords[k].ndim == 0)
+
+
+def _masked_union(c):
+    n = len(c['y'])
+    d = c.get('deco')
+    if not d:
+        return [0] * n
+    return [1 if any(m['values'][i] for m in d['masks']) else 0 for i in range(n)]
+
+
 def make_da(c):
     import scipp as sc
 
@@ -250,7 +345,25 @@ def make_da(c):
     else:
         coord = sc.epoch(unit=c['unit']) + sc.array(dims=['time'], values=np.array(c['x'], dtype='int64'), unit=c['unit'])
         aunit = f"Hz/{c['unit']}"
+    d = c.get('deco')
+    if d and d['variances'] is not None:
+        data = sc.array(dims=['time'], values=y, variances=np.array([unbits(h) for h in d['variances']]), unit='Hz')
     da = sc.DataArray(data, coords={'time': coord})
+    if d:
+        for e in d['extras']:
+            if e['kind'] == 'float':
+                v = sc.array(dims=['time'], values=np.array([unbits(h) for h in e['values']]), unit='deg')
+            elif e['kind'] == 'int':
+                v = sc.array(dims=['time'], values=np.array(e['values'], dtype='int64'), unit=None)
+            elif e['kind'] == 'datetime':
+                v = sc.epoch(unit='us') + sc.array(dims=['time'], values=np.array(e['values'], dtype='int64'), unit='us')
+            else:
+                v = sc.array(dims=['time'], values=list(e['values']))
+            da.coords[e['name']] = v
+        for m in d['masks']:
+            da.masks[m['name']] = sc.array(dims=['time'], values=np.array(m['values'], dtype=bool))
+        if d['scalar'] is not None:
+            da.coords[d['scalar']['name']] = sc.scalar(d['scalar']['value'])
     atol = sc.scalar(c['atol'], unit=aunit)
     minn = sc.index(c['minn']) if c['minn_var'] else c['minn']
     return da, atol, minn
@@ -281,10 +394,13 @@ def run_impl(c):
     yb = buf.data.values
     xb = _coord_raw(buf.coords['time'], c['kind'])
     bins = []
+    btoks, sig = _record_tokens(buf)
+    bins_tok = []
     for b, e in zip(begin, end):
         bins.append((tuple(xb[b:e]), tuple(bits(float(v)) for v in yb[b:e])))
+        bins_tok.append(tuple(btoks[b:e]))
     extra = (list(r.dims), [int(v) for v in r.coords['plateau'].values] if 'plateau' in r.coords else None,
-             str(buf.data.unit), str(buf.data.dtype))
+             str(buf.data.unit), str(buf.data.dtype), _scalar_coords(r), sorted(r.masks))
     try:
         col = F.collapse_plateaus(r, coord='time')
         vals = [bits(v) for v in col.data.values]
@@ -293,10 +409,11 @@ def run_impl(c):
             ev = [(bits(a), bits(b)) for a, b in edges.values.reshape(-1, 2)]
         else:
             ev = [(int(a), int(b)) for a, b in edges.values.astype('int64').reshape(-1, 2)]
-        collapsed = ('ok', vals, ev, list(col.dims), list(edges.dims))
+        cvars = None if col.data.variances is None else [('nan' if math.isnan(v) else bits(v)) for v in col.data.variances]
+        collapsed = ('ok', vals, ev, list(col.dims), list(edges.dims), cvars, _scalar_coords(col))
     except Exception as e:  # noqa: BLE001
         collapsed = (_err(e),)
-    return ('ok', bins, extra, collapsed)
+    return ('ok', bins, extra, collapsed, bins_tok, sig)
 
 
 def line_for(c, op='c19.plateaus'):
@@ -306,6 +423,15 @@ def line_for(c, op='c19.plateaus'):
     n = len(c['y'])
     if op == 'c19.plateaus':
         head = f"c19.plateaus {k} {c['minn']} {bits(c['atol'])} {n}"
+    elif op == 'c19.contents':
+        toks, _ = _record_tokens(make_da(c)[0])
+        return f"c19.contents {k} {c['minn']} {bits(c['atol'])} {n} " + ' '.join(xs) + ' ' + ' '.join(ys) + ' ' + ' '.join(toks)
+    elif op == 'c19.collapsem':
+        d = c.get('deco') or {}
+        vs = d.get('variances') or [bits(0.0)] * n
+        ms = [str(v) for v in _masked_union(c)]
+        return (f"c19.collapsem {k} {c['minn']} {bits(c['atol'])} {n} " + ' '.join(xs) + ' ' + ' '.join(ys) + ' ' + ' '.join(vs)
+                + ' ' + ' '.join(ms))
     elif op == 'c19.slopes':
         head = f'c19.slopes {k} {n}'
     else:
@@ -313,8 +439,10 @@ def line_for(c, op='c19.plateaus'):
     return head + ' ' + ' '.join(xs) + ' ' + ' '.join(ys)
 
 
-def model_result(c, out):
-    """canonical result from the driver line, in the same shape as run_impl"""
+def model_result(c, out, out_contents=None, out_col=None):
+    """canonical result from the driver lines, in the same shape as run_impl. For decorated series the bin contents
+    come from the model's `binContents` over the opaque per-point records (`c19.contents`) and the collapsed value /
+    variance from `collapseMasked`; for plain series from the index ranges."""
     if out.startswith('err:runtime'):
         return ('err:runtime',)
     if out.startswith('err:'):
@@ -324,15 +452,29 @@ def model_result(c, out):
     items = out.split()[1:]
     xs = [bits(v) for v in c['x']] if c['kind'] == 'float' else [int(v) for v in c['x']]
     ys = [bits(v) for v in c['y']]
-    bins, vals, ev = [], [], []
+    in_toks, in_sig = _record_tokens(make_da(c)[0])
+    d = c.get('deco')
+    bins, vals, ev, bins_tok = [], [], [], []
     for it in items:
         s, l, m, lo, hi = it.split(':')
         s, l = int(s), int(l)
         bins.append((tuple(xs[s:s + l]), tuple(ys[s:s + l])))
+        bins_tok.append(tuple(in_toks[s:s + l]))
         vals.append('nan' if m == 'nan' else m)
         ev.append((lo, hi) if c['kind'] == 'float' else (int(lo), int(hi)))
-    extra = (['plateau'], list(range(len(bins))), 'Hz', 'float64' if c.get('ydtype', 'float64') == 'float64' else 'int64')
-    return ('ok', bins, extra, ('ok', vals, ev, ['plateau'], ['plateau', 'time']))
+    cvars = None
+    if d is not None:
+        if out_contents is None or not out_contents.startswith('ok') or out_col is None or not out_col.startswith('ok'):
+            return ('bad:' + str(out_contents)[:80] + '/' + str(out_col)[:80],)
+        bins_tok = [tuple(t.split(',')) for t in out_contents.split()[1:]]
+        mv = [t.split(':') for t in out_col.split()[1:]]
+        vals = [a for a, _ in mv]
+        if d['variances'] is not None:
+            cvars = [b for _, b in mv]
+    scal = sorted([(d['scalar']['name'], 'i:' + str(d['scalar']['value']))]) if d and d['scalar'] else []
+    extra = (['plateau'], list(range(len(bins))), 'Hz', 'float64' if c.get('ydtype', 'float64') == 'float64' else 'int64',
+             scal, [])
+    return ('ok', bins, extra, ('ok', vals, ev, ['plateau'], ['plateau', 'time'], cvars, scal), bins_tok, in_sig)
 
 
 def _norm_impl(res):
@@ -340,7 +482,7 @@ def _norm_impl(res):
     if res[0] != 'ok' or res[3][0] != 'ok':
         return res
     vals = ['nan' if math.isnan(unbits(v)) else v for v in res[3][1]]
-    return (res[0], res[1], res[2], ('ok', vals, *res[3][2:]))
+    return (res[0], res[1], res[2], ('ok', vals, *res[3][2:]), *res[4:])
 
 
 def impl_slopes(c):
@@ -451,15 +593,32 @@ def correspond(ctx):
     cases.append(dict(kind='float', unit='s', x=[0.0, 1.0], y=[0.0, 5.0], atol=0.5, minn=1, minn_var=False, mode='fixed', ydtype='float64'))
     cases.append(dict(kind='int', unit='s', x=list(range(500)), y=[float(i % 7 == 0) * 10 for i in range(500)], atol=0.5, minn=2,
                       minn_var=True, mode='fixed', ydtype='float64'))
+    for c in cases:
+        if 'deco' not in c and c['mode'] != 'fixed' and rng.random() < 0.5:
+            decorate(rng, c)
+    cases.append(decorate(rng, dict(kind='datetime', unit='ms', x=[0, 2, 4, 6, 8, 10], y=[0.0, 0.1, 0.0, 9.0, 9.1, 9.0], atol=1.0, minn=2,
+                                    minn_var=False, mode='fixed', ydtype='float64')))
     lines = [line_for(c) for c in cases]
     slope_cases = cases[: ctx.n(250, 10000)]
     lines += [line_for(c, 'c19.slopes') for c in slope_cases]
+    deco_idx = [i for i, c in enumerate(cases) if c.get('deco') is not None]
+    nbase = len(lines)
+    lines += [line_for(cases[i], 'c19.contents') for i in deco_idx]
+    lines += [line_for(cases[i], 'c19.collapsem') for i in deco_idx]
     outs = _drive(ctx, lines)
+    out_contents = {i: outs[nbase + k] for k, i in enumerate(deco_idx)}
+    out_col = {i: outs[nbase + len(deco_idx) + k] for k, i in enumerate(deco_idx)}
     with np.errstate(all='ignore'):
-        for c, out in zip(cases, outs):
+        for ci, (c, out) in enumerate(zip(cases, outs)):
             impl = _norm_impl(run_impl(c))
-            model = model_result(c, out)
-            ident = ('pl', c['kind'], c['minn'], bits(c['atol']), tuple(map(str, c['x'])), tuple(bits(v) for v in c['y']))
+            model = model_result(c, out, out_contents.get(ci), out_col.get(ci))
+            d = c.get('deco')
+            if d is not None:
+                ctx.count(f"deco:extras={len(d['extras'])}:masks={len(d['masks'])}:var={int(d['variances'] is not None)}:scalar={int(d['scalar'] is not None)}")
+            else:
+                ctx.count('deco:none')
+            ident = ('pl', c['kind'], c['minn'], bits(c['atol']), tuple(map(str, c['x'])), tuple(bits(v) for v in c['y']),
+                     json.dumps(c.get('deco'), sort_keys=True))
             n = len(c['y'])
             nb = len(impl[1]) if impl[0] == 'ok' else -1
             nontrivial = n >= 3 and (impl[0] != 'ok' or 0 < sum(len(b[0]) for b in impl[1]) or nb == 0)
@@ -472,7 +631,7 @@ def correspond(ctx):
             if impl != model:
                 ctx.disagree({'op': 'plateaus', 'case': _encode_case(c)}, _short(impl), _short(model),
                              'find_plateaus/collapse_plateaus differ from the model')
-        for c, out in zip(slope_cases, outs[len(cases):]):
+        for c, out in zip(slope_cases, outs[len(cases):len(cases) + len(slope_cases)]):
             if c['mode'] == 'unsorted':
                 continue
             impl = impl_slopes(c)
@@ -606,6 +765,21 @@ def check_plateaus_property(c, impl):
         if any((a, b) not in allpts for bx, by in bins for a, b in zip(bx, by)):
             return [('C19:points-changed', 'a bin holds a point (coordinate, value) that is not an input point')]
         return [('C19:not-disjoint-ordered-slices', 'bins are not disjoint contiguous slices of the input in input order')]
+    # every bin holds its points unchanged: value, variance, EVERY coordinate and mask of the input slice
+    in_toks, in_sig = _record_tokens(make_da(c)[0])
+    out_sig = impl[5]
+    missing = ([f'coordinate {k!r}' for k in in_sig['coords'] if k not in out_sig['coords']]
+               + [f'mask {k!r}' for k in in_sig['masks'] if k not in out_sig['masks']]
+               + (['variances'] if in_sig['variances'] and not out_sig['variances'] else []))
+    if missing:
+        probs.append(('C19:coords-dropped', 'the plateau bins lack ' + ', '.join(missing) + ' of the input points'))
+    else:
+        for (i, j), bt in zip(ivs, impl[4]):
+            if tuple(in_toks[i:j + 1]) != tuple(bt):
+                k = next(t for t in range(j - i + 1) if in_toks[i + t] != bt[t])
+                probs.append(('C19:points-changed',
+                              f'point {i + k} in bin [{i},{j}] differs from the input point (value, variance, a coordinate or a mask)'))
+                break
     flags, ties = _slope_flags(c, with_ties=True)
     minn = c['minn']
     for (i, j) in ivs:
@@ -644,8 +818,11 @@ def check_plateaus_property(c, impl):
     if len(col[1]) != len(ivs):
         probs.append(('C19:collapse-count', 'collapse_plateaus does not return one element per plateau'))
         return probs
+    masked = _masked_union(c)
     for (i, j), mv, (lo, hi) in zip(ivs, col[1], col[2]):
-        pts = [Fraction(v) for v in c['y'][i:j + 1]]
+        pts = [Fraction(v) for k, v in enumerate(c['y'][i:j + 1]) if not masked[i + k]]
+        if not pts:
+            continue   # every point masked: no mean is defined
         exact = sum(pts) / len(pts)
         scale = max(abs(p) for p in pts)
         got = Fraction(unbits(mv)) if mv != 'nan' else None
@@ -710,9 +887,11 @@ def oracle(ctx, deep):
         for c in corpus + ties + [gen_series(rng, 500 if not ctx.quick or deep else 200) for _ in range(n_series)]:
             if c['mode'] == 'unsorted':
                 continue
+            if 'deco' not in c and rng.random() < 0.6:
+                decorate(rng, c)
             impl = run_impl(c)
-            ctx.case(('oracle-pl', c['kind'], c['minn'], bits(c['atol']), tuple(map(str, c['x'])), tuple(bits(v) for v in c['y'])),
-                     len(c['y']) >= 3)
+            ctx.case(('oracle-pl', c['kind'], c['minn'], bits(c['atol']), tuple(map(str, c['x'])), tuple(bits(v) for v in c['y']),
+                      json.dumps(c.get('deco'), sort_keys=True)), len(c['y']) >= 3)
             ctx.count('oracle:plateaus:' + impl[0])
             seen = set()
             for key, what in check_plateaus_property(c, impl):
